@@ -3,8 +3,8 @@
 Workload: an arrival process creates caller tasks at scripted virtual instants (gaps are multiples
 of period/4); the wrapped function is a test double that records the virtual instant at which its
 body starts, runs for a scripted duration and ends with a unique value or exception. Optionally one
-caller is cancelled at a scripted instant. In a part of the histories the first few calls (at most `limit`, so that nobody
-ever waits on the first loop) are made on one event loop and the rest on a second loop created afterwards; the wrapper and the
+caller is cancelled at a scripted instant. In a part of the histories the first few calls are made on one event loop (which
+runs until they are all done) and the rest on a second loop created afterwards - calls may have to queue on both; the wrapper and the
 clock are the same, so the window bound spans both.
 
 Oracle over the recorded (arrival a_i, start s_i, outcome) history:
@@ -43,7 +43,7 @@ ASSUMPTIONS = [
     "how long a call that has to wait is delayed is unspecified beyond the window bound and quiescence",
     "arrival order of same-instant callers is the order in which the harness entered the wrapper",
 ]
-MINIMUMS = {"monitor:window": 3000, "bursts_over_limit": 1000, "calls_that_waited": 1000, "monitor:no-needless-delay": 3000, "histories_over_two_event_loops": 300, "histories_with_a_call_time_facade": 100, "histories_with_synchronous_work": 300, "histories_with_arrivals_just_off_a_window_boundary": 1000}
+MINIMUMS = {"monitor:window": 3000, "bursts_over_limit": 1000, "calls_that_waited": 1000, "monitor:no-needless-delay": 3000, "histories_over_two_event_loops": 300, "histories_with_a_call_time_facade": 100, "histories_with_synchronous_work": 300, "histories_with_arrivals_just_off_a_window_boundary": 1000, "histories_with_timers_just_before_quarter_period_instants": 50}
 JOBS = {"quick": 4, "thorough": 16}
 LEVEL_TEXT = (
     "Every arrival pattern of up to 5 calls with gaps from {0, 1/4, 1/2, 1, 5/4, 2} periods is run for limits 1-4 (period as float and as timedelta - sub-second, a day, 36 hours, a week) in exact "
@@ -120,7 +120,7 @@ def run_case(R: Recorder, case: dict[str, Any], verbose: bool = False) -> None:
         wrapped = throttle(limit=limit, period=timedelta(seconds=period) if pform == "timedelta" else period)(function)
     got: dict[str, Any] = {}
 
-    split = case.get("split")  # the first `split` calls (never more than `limit`, so nobody ever waits) are made on one event
+    split = case.get("split")  # the first `split` calls (also more than `limit`: calls queue on both loops) are made on one event
     # loop, the rest on a second loop created afterwards - same wrapper, same process-wide clock
 
     async def main(loop: Any, lo: int = 0, hi: int = n) -> None:
@@ -137,6 +137,13 @@ def run_case(R: Recorder, case: dict[str, Any], verbose: bool = False) -> None:
                 results[i] = ("raise", exc)
 
         async def arrive() -> None:
+            for k in case.get("early_timers") or []:
+                # unrelated timers of the application that fall due a fraction of a nanosecond (less than the loop's clock resolution)
+                # before quarter-period instants: the loop serves everything due within its resolution in one go, so whoever sleeps
+                # until such an instant is woken up that fraction early
+                loop.call_at(t0 + k * q - 2.0**-31, lambda: None)
+            if case.get("early_timers"):
+                R.count("histories_with_timers_just_before_quarter_period_instants")
             for i in range(lo, hi):
                 g = gaps[i]
                 if g:
@@ -274,11 +281,16 @@ def exhaustive(tier: str):  # noqa: ANN201
                     for start, eps in ((1000.0, 2.0**-21), (2.0**20, 2.0**-11), (1000.0, 2.0**-12)):
                         for sign in (1, -1):
                             yield {"limit": limit, "period": 1.0, "pform": "float" if (n + i) % 2 else "timedelta", "gaps": [0, *gaps], "nudge": [sign * eps if j == i else 0.0 for j in range(n)], "clock_start": start}
+    # unrelated timers falling due just (2**-31 s, below the clock resolution of the loop) before every quarter-period instant
+    for limit in (1, 2):
+        for n in (2, 3, 4):
+            for gaps in itertools.product((0, 2, 4), repeat=n - 1):
+                yield {"limit": limit, "period": 1.0, "pform": "float", "gaps": [0, *gaps], "early_timers": list(range(1, 4 * n + 9))}
     # one wrapper used from two consecutive event loops (e.g. two asyncio.run calls): the window does not care about loops
     for limit in (1, 2, 3):
         for n in range(2, 5):
             for gaps in itertools.product(GAPS, repeat=n - 1):
-                for split in range(1, min(limit, n - 1) + 1):
+                for split in range(1, n):
                     yield {"limit": limit, "period": 1.0, "pform": "float" if (n + limit) % 2 else "timedelta", "gaps": [0, *gaps], "split": split}
 
 
@@ -297,7 +309,7 @@ def random_case(rng: random.Random) -> dict[str, Any]:
     if rng.random() < 0.2:
         case["busy"] = [rng.choice([0, 0, 2, 4, 5]) for _ in range(n)]
     if rng.random() < 0.2:
-        case["split"] = rng.randint(1, min(limit, n - 1))
+        case["split"] = rng.randint(1, n - 1)
         case["scoped"] = False
         for i in range(case["split"]):
             case["durs"][i] = 0
